@@ -43,7 +43,7 @@ def seeded():
 
 NOTES = {
  "C01": "covering arrays (pairwise quick / 3-wise thorough) + random points; extra content classes `break-even` (lengths around the point where 1 + compressed = input) and `litruns` (RLE literal-count boundaries) added after seeded changes C01-m1 / C03-m2; round 4: Unicode-case variants of added non-ASCII names as never-added lookups (after C01-r4m1)",
- "C02": "reference in Python (lib/refmpq.py); mismatches are re-extracted under named deviation models (full-path key, transformed dword tail) so that known deviations stay diagnosable and everything else stays strict; reference reader checks `compressed_size` == end of last sector (after C02-m1); direction B includes aligned, path-less, incompressible encrypted single-unit files larger than a sector (after C02-m3); quick runs half of the 144-configuration product chosen by the seed; round 2: direction A archives carry break-even files (after C02-r2m1); the reference writer emits zlib streams with default / StormLib unit-sized window / varied level+window and bzip2 levels (after C02-r2m3); round 4: the reference writer emits sector checksums in the published layout and language ids in hash entries; direction A compares the hash-entry locale/platform fields (after C02-r4m1/m2)",
+ "C02": "reference in Python (lib/refmpq.py); mismatches are re-extracted under named deviation models (full-path key, transformed dword tail) so that known deviations stay diagnosable and everything else stays strict; reference reader checks `compressed_size` == end of last sector (after C02-m1); direction B includes aligned, path-less, incompressible encrypted single-unit files larger than a sector (after C02-m3); quick runs the 144-configuration product once and 300 reference-written archives (since round 4); round 2: direction A archives carry break-even files (after C02-r2m1); the reference writer emits zlib streams with default / StormLib unit-sized window / varied level+window and bzip2 levels (after C02-r2m3); round 4: the reference writer emits sector checksums in the published layout and language ids in hash entries; direction A compares the hash-entry locale/platform fields (after C02-r4m1/m2)",
  "C03": "added: a form that differs from the input must be strictly shorter (after C03-m1); `decompress_secure` is also called with file names ending in .mpq/.zip/.rar/.7z/.txt (after C03-m3); random (length, class) points and break-even inputs; round 2: four 0.7-2 MiB units per selector in every tier (codec block boundaries, after C03-r2m2); 560 repeated legacy `decompress` calls (>1 GiB cumulative) must keep answering identically (after C03-r2m3); stereo probes with loud onsets in left / right / both channels (after C03-r2m1); round 3: `tailz<k>` classes (sparse content ending in a non-zero byte + k zeros: the encoder's final run marker vs the decoder's clamp, after C03-r3m1); round 4: damaged streams are offered to the same selector between valid round trips on one thread (after C03-r4m2)",
  "C04": "the independent reference lives in the Rust harness (harness/vh-mpq/src/lib.rs) rather than Python — same independence, no data hand-over; Jenkins fold direction (upper/lower) accepted either way if consistent (the statement does not fix it; observed: upper); BET hashes are also read back from built V3/V4 archives; thorough additionally interprets the table case and 16 cipher-key cases (lengths 0..17, byte-wrapper tails) under Miri; round 2: byte wrappers are also run on sub-slices at every start alignment 0..7 of a larger buffer, with guard bytes (after C04-r2m3); round 3: hash widths 8..64 incl. non-multiples of 8 (after C04-r3m1); HET table images whose body is encrypted with `ArchiveBuilder::encrypt_data` are read back through `HetTable::read` for every body length mod 4 (the private table-body decryptor, after C04-r3m2); round 4: slice for the non-default `simd` feature — byte-string name hash incl. invalid UTF-8 around the vector thresholds at every alignment, CRC-32; ASan in thorough (after C04-r4m2)",
  "C05": "each batch of mutants runs in a forked child of the worker, so aborts are attributed to the exact mutant; signatures are keyed by in-repo site (not entry point); requests >= 256 MiB are refused by the counting allocator; MPQ seeds from ArchiveBuilder and from lib/refmpq.py (deleted markers, user-data prefix, PATCH_FILE entries); round 2: chunk ops with an unknown magic and sizes that are negative as i32 (after C05-r2m1); one seed per structure format followed by 1 MiB the format does not use, which exposed the WMO portal amplification repaired in c54d8a8 (after C05-r2m3); `Attributes::parse` / `parse_listfile` driven directly on independently encoded payloads (after C05-r2m4); round 4: stage F (thorough) = coverage-guided input generation with libFuzzer+ASan over the same drivers, every kept input and artifact replayed natively under the monitors; drivers call the remaining public readers of every crate (entry points 32 -> 150: embedded skins, enhanced data, lazy/parallel/mmap/discovery DBC paths, validators, writers and converters on parsed mutants, PatchChain / MutableArchive / ParallelArchive / rebuild / compare on every MPQ mutant, header/table readers, slice-level decoders as format `mpq-raw`); short declared tables are never thinned out by the offset cap (after C05-r4m3)",
